@@ -113,9 +113,10 @@ class ListenerSocketAdapter(AsyncListener[_T_Stream]):
         # A task cancelled before its first step never runs: nobody else would close its socket.
         pending_sockets: set[_socket.socket] = set()
 
-        def close_pending_sockets() -> None:
-            while pending_sockets:
-                pending_sockets.pop().close()
+        def close_socket_if_pending(client_socket: _socket.socket) -> None:
+            if client_socket in pending_sockets:
+                pending_sockets.discard(client_socket)
+                client_socket.close()
 
         async def client_connection_task(client_socket: _socket.socket) -> None:
             pending_sockets.discard(client_socket)
@@ -147,15 +148,18 @@ class ListenerSocketAdapter(AsyncListener[_T_Stream]):
             stack.enter_context(self.__serve_guard)
             if task_group is None:
                 task_group = await stack.enter_async_context(self.__backend.create_task_group())
-            # The tasks already created get their first step before this callback runs.
-            stack.callback(asyncio.get_running_loop().call_soon, close_pending_sockets)
+            loop = asyncio.get_running_loop()
             while True:
                 # Always drop socket reference on loop begin
                 client_socket: _socket.socket | None = None
 
                 client_socket = await self.raw_accept()
                 pending_sockets.add(client_socket)
-                task_group.start_soon(client_connection_task, client_socket)
+                try:
+                    task_group.start_soon(client_connection_task, client_socket)
+                finally:
+                    # The task gets its first step (if it ever does) before this callback runs.
+                    loop.call_soon(close_socket_if_pending, client_socket)
 
         raise AssertionError("Expected code to be unreachable.")
 
